@@ -156,24 +156,15 @@ def rule_r(repo, res):
         # decoder side: the suffix of the ODL offset regex (after the leading dt group)
         dc, dfn = repo.resolve_method("ODLDecoder", "decode_datetime")
         pat = None
+        from . import predeval as PE0, lang as lang0
+        ev0 = PE0.Eval(lang0.Reader(repo, "ODLGrammar", "ODLDecoder").ctx, "ODLDecoder", dc, {})
         for n in ast.walk(dfn):
             if isinstance(n, ast.Call) and norm(n.func) in ("re.fullmatch", "re.match") and n.args:
-                p = n.args[0]
-                if isinstance(p, ast.JoinedStr):
-                    g = tables.grammar_instance(repo, "ODLGrammar")
-                    parts = []
-                    for x in p.values:
-                        if isinstance(x, ast.Constant):
-                            parts.append(str(x.value))
-                        else:
-                            src = norm(x.value)
-                            if src.startswith("self.grammar."):
-                                parts.append(str(getattr(g, src.split(".")[-1])))
-                            else:
-                                raise AnalysisError(f"cannot resolve {src} in the ODL zone-offset pattern")
-                    pat = "".join(parts)
-                elif isinstance(p, ast.Constant):
-                    pat = p.value
+                # the pattern text: literal, f-string over the grammar, concatenation, class constant (partial evaluator)
+                try:
+                    pat = ev0.fstring(n.args[0])
+                except PE0.Unsupported as x:
+                    raise AnalysisError(f"cannot resolve the ODL zone-offset pattern `{norm(n.args[0], 80)}`: {x}")
         if pat is None:
             raise AnalysisError("anchor vanished: the zone-offset regex of ODLDecoder.decode_datetime")
         import re._parser as rp
@@ -248,14 +239,36 @@ def rule_decode_side(repo, res):
     if not ok:
         res.add(Finding("DT", "PVLDecoder.decode_datetime", ".date()/.time()", "a date or time no longer decodes to the matching "
                         "Python type", where=f"pvl/decoder.py:{fn.lineno}"))
-    zs = [n for n in ast.walk(fn) if isinstance(n, ast.If) and "endswith('Z')" in norm(n.test)]
-    ok = bool(zs) and any("timezone.utc" in norm(b) for z in zs for b in z.body) and \
-        any("self.grammar.default_timezone" in norm(b) for z in zs for b in ast.walk(z) if isinstance(b, ast.Return))
+    # zone attachment, on the path conditions of decode_datetime and the private helpers it calls: every
+    # <value>.replace(tzinfo=Z) happens only when utcoffset() is None; Z = UTC only when the text ends with 'Z';
+    # Z = the grammar's default zone only when it does not
+    from . import flow, inline
+    raw_fn = repo.method("PVLDecoder", "decode_datetime")
+    attach = []
+    for owner, f_ in inline.closure(repo, "PVLDecoder", raw_fn, module="decoder"):
+        for st, conds in flow.stmts_with_conds(f_.body):
+            for c in ast.walk(st):
+                if isinstance(c, ast.Call) and isinstance(c.func, ast.Attribute) and c.func.attr == "replace" \
+                        and any(k.arg == "tzinfo" for k in c.keywords):
+                    z = [k.value for k in c.keywords if k.arg == "tzinfo"][0]
+                    attach.append((st, conds, norm(z)))
+
+    def off_none(t, p):
+        return isinstance(t, ast.Compare) and len(t.ops) == 1 and "utcoffset()" in norm(t.left) and norm(t.comparators[0]) == "None" \
+            and ((isinstance(t.ops[0], ast.Is) and p) or (isinstance(t.ops[0], ast.IsNot) and not p))
+
+    def ends_z(pol):
+        return lambda t, p: isinstance(t, ast.Call) and isinstance(t.func, ast.Attribute) and t.func.attr == "endswith" \
+            and len(t.args) == 1 and isinstance(t.args[0], ast.Constant) and t.args[0].value == "Z" and p == pol
+    utc = [(st, c) for st, c, z in attach if "timezone.utc" in z]
+    dflt = [(st, c) for st, c, z in attach if "default_timezone" in z]
+    ok = bool(utc) and bool(dflt) and all(flow.holds(c, ends_z(True)) for _, c in utc) and all(flow.holds(c, ends_z(False)) for _, c in dflt) \
+        and len(utc) + len(dflt) == len(attach)
     res.oblige("DT", "PVLDecoder.decode_datetime: trailing Z -> UTC, otherwise the grammar's default zone (if any)", ok=ok)
     if not ok:
         res.add(Finding("DT", "PVLDecoder.decode_datetime", "zone attachment", "a trailing Z no longer yields UTC or the default "
                         "zone of the grammar is no longer applied", where=f"pvl/decoder.py:{fn.lineno}"))
-    guard = [n for n in ast.walk(fn) if isinstance(n, ast.If) and "utcoffset() is None" in norm(n.test)]
+    guard = bool(attach) and all(flow.holds(c, off_none) for _, c, _ in attach)
     res.oblige("DT", "PVLDecoder.decode_datetime attaches a zone only to values without one", ok=bool(guard))
     if not guard:
         res.add(Finding("DT", "PVLDecoder.decode_datetime", "utcoffset() is None", "zone attachment is no longer guarded by "
